@@ -139,7 +139,7 @@ def accepts(field, v):
         if is_str(v):
             if isinstance(v, SStr):
                 return False  # one symbolic character: not an importable dotted path
-            return v in ("myst_parser.config.main._test_slug_func", "os.path.basename")
+            return _names_callable(v)
         return False
     if field in ("html_meta",):
         return isinstance(v, dict) and all(is_str(k) and is_str(x) for k, x in v.items())
@@ -162,12 +162,26 @@ def accepts(field, v):
     raise KeyError(field)
 
 
+def _names_callable(path):
+    """Documented form of a slug function given as text: the dotted import path of a callable."""
+    import importlib
+
+    mod, dot, name = path.rpartition(".")
+    if not dot or not mod or not name:
+        return False
+    try:
+        obj = getattr(importlib.import_module(mod), name)
+    except Exception:  # noqa
+        return False
+    return callable(obj)
+
+
 ALL_FIELDS = BOOL_FIELDS + ["enable_extensions"] + STRLIST_FIELDS + ["ref_domains", "fence_as_directive", "url_schemes", "heading_anchors", "heading_slug_func", "html_meta",
                                                                        "substitutions", "sub_delimiters", "inventories", "mathjax_classes", "words_per_minute"]
 
 # ------------------------------------------------------------ value grammar
 
-STR_POOL = ["amsmath", "deflist", "http", "url", "classes", "title", "x", "", "{", "myst_parser.config.main._test_slug_func", "http.nosuch", "nomodule.f"]
+STR_POOL = ["amsmath", "deflist", "http", "url", "classes", "title", "x", "", "{", "myst_parser.config.main._test_slug_func", "http.nosuch", "nomodule.f", "os.sep", "sys.intern"]  # (os.sep: importable but not callable; sys.intern: a built-in, not a Python function)
 KEY_POOL = ["http", "url", "classes", "title", "x"]
 
 
@@ -641,9 +655,75 @@ def make_optstrings(eng):
     return body
 
 
+# ------------------------------------------------------------ rendering a document leaves the configuration it was given untouched
+
+RENDER_DOCS = ["{{ k }} and {{ env.docname }}\n", "{{ k }}\n\n{{ nosuch }}\n", "# T\n\n[a](http://x/y) <wiki:Page> [](#t)\n", "```{note}\n{{ k }}\n```\n\n- [ ] task\n", "Term\n: def {{ x }}\n\n$a$ <b>h</b>\n", "![i](a.png){#id .c}\n\n{.p}\npara\n"]
+RENDER_CONFIGS = [dict(enable_extensions=["substitution", "deflist", "tasklist", "dollarmath", "attrs_inline", "attrs_block", "colon_fence"], substitutions={"k": "v *w*", "x": 1}, url_schemes={"http": None, "wiki": {"url": "https://w/{{path}}", "title": "{{path}}"}},
+                       html_meta={"a": "b"}, heading_anchors=2, fence_as_directive=["mermaid"], disable_syntax=["strikethrough"]),
+                  dict(enable_extensions=["substitution"], substitutions={}, sub_delimiters=("[", "]"))]
+
+
+class _RenderEnv:
+    """Sphinx environment stub (the renderer adds it to the substitution context as 'env')."""
+
+    docname = "index"
+    srcdir = ""
+    temp_data = {}
+    metadata = {}
+
+    class config:
+        suppress_warnings = []
+        myst_ref_domains = None
+        highlight_language = "default"
+
+
+def run_render_keeps(ci, di, with_env, real=False):
+    from harness import common_render as CR
+
+    ctx = CR.new_context(real=real, config=RENDER_CONFIGS[ci], sphinx_env=_RenderEnv() if with_env else None)
+    cfg = ctx.renderer.md_config
+    before = snapshot(cfg)
+    ctx.renderer._render_tokens(ctx.md.parse(RENDER_DOCS[di], ctx.renderer.md_env))
+    ctx.renderer._render_finalise()
+    after = snapshot(cfg)
+    if before[0] != after[0]:
+        changed = [k for k in before[0] if before[0][k] != after[0][k]]
+        return ("render-modifies-config", "rendering %r changed the configuration field(s) %r: now %r" % (RENDER_DOCS[di], changed, [getattr(cfg, k) for k in changed]))
+    if before[1] != after[1]:
+        return ("render-rebinds-config", "rendering %r replaced a configuration value" % (RENDER_DOCS[di],))
+    return None
+
+
+def make_render_keeps(eng):
+    from harness import common_render as CR
+
+    CR.setup()
+    c = CR.Choice(eng)
+    state = {}
+    eng.witness_fn = lambda m: dict(state)
+
+    def body():
+        c.reset()
+        ci, di, we = c.choose(len(RENDER_CONFIGS)), c.choose(len(RENDER_DOCS)), c.choose(2)
+        state.update(render_keeps=[ci, di, we])
+        try:
+            err = run_render_keeps(ci, di, we)
+        except Exception as exc:  # noqa
+            eng.fail("render-raises", "%s: %s" % (type(exc).__name__, exc))
+        if err:
+            eng.fail(*err)
+        eng.passed(2)
+        eng.note("accepted")
+        return "ok"
+
+    return body
+
+
 def families(tier, seed):
     q = tier == "quick"
     F = []
+    F.append(Family("render-keeps-config", make_render_keeps, "%d documents (substitutions incl. 'env', links through url_schemes, attributes, directives) x %d configurations x with / without a Sphinx environment: "
+                    "rendering with the configuration object itself (a document without front matter) leaves every field and every mutable of it unchanged" % (len(RENDER_DOCS), len(RENDER_CONFIGS)), nontrivial="accepted", max_forks=1000))
     groups = [("bools", BOOL_FIELDS[:4] if q else BOOL_FIELDS, 1, 1),
               ("lists", ["enable_extensions", "disable_syntax", "ref_domains", "fence_as_directive"] + ([] if q else ["number_code_blocks", "suppress_warnings"]), 1, 2),
               ("dicts", ["url_schemes", "html_meta", "substitutions", "inventories"], 2, 1),
@@ -680,6 +760,12 @@ def replay(label, witness):
         if res is None:
             return None
         err = check_optstring(res)
+        return ("C13/%s" % err[0], err[1]) if err else None
+    if "render_keeps" in witness:
+        try:
+            err = run_render_keeps(*witness["render_keeps"], real=True)
+        except Exception as e:  # noqa
+            return ("C13/render-raises:%s" % type(e).__name__, "%r" % (e,))
         return ("C13/%s" % err[0], err[1]) if err else None
     import myst_parser.config.main as real
 
